@@ -15,7 +15,7 @@ TEXT = {
  "C01": ("seeded exploration of hash-order worlds x solver model choices; CNF model set and solve() answers compared with brute-force consistent valuations", "S1 hash world + S3 solver peer; oracle: bit-parallel consistent-valuation set"),
  "C03": ("seeded exploration of hash-order worlds (text order) and the file seam; write->read round trips compared structurally and functionally", "S1 hash world + S5 SimFS; oracle: reference evaluation + structural equality"),
  "C04": ("seeded exploration of circuit pairs x endpoint/startpoint subsets x hash worlds x solver choices; miter output compared with the reference difference function", "S1 + S3; oracle: truth tables of both circuits"),
- "C05": ("seeded exploration of hash-order worlds (operand grouping order); result function compared node by node with the reference", "S1; oracle: truth tables"),
+ "C05": ("seeded exploration of hash-order worlds (operand grouping order) and of chained earlier transforms; result function compared node by node with the reference; bounded liveness of insert_registers judged with a deterministic step clock (executed source lines under sys.settrace)", "S1 + S8; oracle: truth tables, step budget"),
  "C06": ("seeded composition histories (valid and invalid calls interleaved) checked after every call against a reference that substitutes on plain dicts", "S6 histories + S1; oracle: reference substitution model, functional comparison"),
  "C07": ("seeded API histories with ~35% illegal calls; wiring invariants evaluated on the raw graph after every call including calls that raised", "S6 histories with rejected calls as faults; oracle: wiring rules I1-I9"),
  "C08": ("seeded exploration of solver enumeration orders, hash worlds and the process/file hand-off to a fake approxmc child that re-opens the DIMACS file", "S3 + S4 + S1; oracle: projected consistent-valuation counts, independent DIMACS counter"),
@@ -44,7 +44,7 @@ for pid in built:
         "engine": "cgsim",
         "level_claimed": {"category": "exploration", "text": text + ". Sampling, never exhaustive: a clean batch is evidence, not proof.", "design_ref": f"DESIGN.md section 4 ({pid})"},
         "level_note": "trusted base: reference models in sim/cgsim/ref.py; stubs: pysat (seeded DPLL), approxmc (exact counter behind circuitgraph.sat.subprocess/shutil), SimFS behind circuitgraph.io.open, Circuit identity hash from the PRNG; real: circuitgraph from /repo, networkx, lark, CPython sets under PYTHONHASHSEED. " + note,
-        "technique": "deterministic simulation with fault injection: seeded worlds (PYTHONHASHSEED per fresh interpreter) x seeded peers (solver/approxmc/file system stubs) x seeded operation-and-fault histories, reference-model oracle, ddmin + replay file",
+        "technique": "deterministic simulation with fault injection: seeded worlds (PYTHONHASHSEED per fresh interpreter) x seeded peers (solver/approxmc/file system stubs) x seeded operation-and-fault histories x interpreter-history seams (same request served twice with the first result edited, object seen before in another state, attribute representation), reference-model oracle, ddmin + replay file that carries the history it needs",
     })
 na = [{"property_id": k, "reason": v} for k, v in NA.items()]
 for pid in TEXT:
